@@ -951,17 +951,14 @@ class Walk:
         elif a == "ret":
             dch = self.rng.choice(self.open)
             need = self.need.get(dch, 0)
-            if need > 200 * MS:
-                # a long budget is left: either the sessions end, or the harness looks in vain for a while
-                if signals and self.rng.random() < 0.4:
-                    self.emit({"op": "D", "d": dch, "wait_ms": 30})
-                    return True
+            if need > 0:
+                # budget is left and sessions are alive: the retirement goes on until the sessions end (or
+                # the next retirement cancels it); the harness never sits out a real budget
                 self.emit({"op": "SD", "d": dch})
                 self.need[dch] = 0
                 return True
-            wait = 400 if need > 0 else self.rng.choice([0, 30])
             self.open.remove(dch)
-            self.emit({"op": "D", "d": dch, "wait_ms": wait})
+            self.emit({"op": "D", "d": dch})
             if self.waiting == dch:
                 self.waiting = None
                 self.held = False
@@ -973,10 +970,11 @@ SEC = 1000000000
 
 
 def gen_ret_params(rng):
-    """circumstances of one retirement: --abort, dialer overlap, age of the request (boundaries of the
-    10 s budget: fresh, 150 ms left, exactly used up, long used up), sessions of the old generation"""
+    """circumstances of one retirement: --abort, dialer overlap, age of the request (fresh: seconds of
+    budget left; exactly used up; long used up - never a real budget that could run out during the
+    case), sessions of the old generation"""
     return {"op": "RF", "abort": rng.random() < 0.15, "overlap": rng.random() < 0.8,
-            "elapsed_ns": rng.choice([0, 3 * SEC, 9850 * MS, 10 * SEC, 11 * SEC, 60 * SEC]),
+            "elapsed_ns": rng.choice([0, SEC, 10 * SEC, 11 * SEC, 60 * SEC]),
             "zero": rng.random() < 0.08, "sessions": rng.choice([0, 1, 1, 3])}
 
 
@@ -992,20 +990,25 @@ def gen_drain(rng, d, n_ops, boundary=False):
     """probes of the real waitForControlPlaneDrain / remainingReloadRetirementBudget at boundary budgets"""
     total = d["budget_total_ns"]
     ops = []
+
+    def wd(mw, sessions, idle=-1, cancel=-1):
+        return {"op": "WD", "maxw_ns": mw, "sessions": sessions, "idle_ms": idle, "cancel_ms": cancel, "watch_ms": 10000}
     if boundary:
-        for mw in (-SEC, -1, 0, 1, 1000, 70 * MS, total):
-            ops.append({"op": "WD", "maxw_ns": mw, "sessions": 2, "idle_ms": -1, "cancel_ms": -1, "watch_ms": 300})
+        for mw in (-SEC, -1, 0, 1, 1000):
+            ops.append(wd(mw, 2))
+        ops += [wd(total, 2), wd(total, 2, idle=0), wd(total, 2, cancel=0), wd(total, 0), wd(0, 0)]
         for b, e, z in ((-1, 0, False), (0, 0, False), (1, 0, False), (total, 0, False), (total, 3 * SEC, False),
                         (total, total, False), (total, total + SEC, False), (total, 60 * SEC, False), (5, 0, True), (total, 0, True)):
             ops.append({"op": "RB", "budget_ns": b, "elapsed_ns": e, "zero": z})
     while len(ops) < n_ops:
         if rng.random() < 0.6:
-            idle = rng.choice([-1, -1, 30, 150])
-            cancel = rng.choice([-1, -1, 30, 150])
-            if idle == cancel and idle >= 0:
-                cancel = -1
-            ops.append({"op": "WD", "maxw_ns": rng.choice([-SEC, -1, 0, 0, 1, 1000, 70 * MS, total]), "sessions": rng.choice([0, 1, 5]),
-                        "idle_ms": idle, "cancel_ms": cancel, "watch_ms": 300})
+            # an exhausted/non-positive/tiny budget with nothing else happening, or a budget of seconds with
+            # at most one event (never two wake-ups racing each other)
+            if rng.random() < 0.6:
+                ops.append(wd(rng.choice([-SEC, -1, 0, 0, 1, 1000]), rng.choice([0, 1, 5])))
+            else:
+                ev = rng.choice(["none", "idle", "cancel"])
+                ops.append(wd(total, rng.choice([0, 1, 5]), idle=0 if ev == "idle" else -1, cancel=0 if ev == "cancel" else -1))
         else:
             b = rng.choice([-SEC, -1, 0, 1, 5 * SEC, total])
             ops.append({"op": "RB", "budget_ns": b, "elapsed_ns": rng.choice([0, SEC, 4 * SEC, 6 * SEC, total + SEC, 60 * SEC]), "zero": rng.random() < 0.15})
@@ -1034,6 +1037,7 @@ ADV_OPS = ["Q", "Q", "Q", "T", "A", "L", "C", "P", "K", "H", "N", "O", "F", "R",
 def gen_adversarial(rng, d, n_ops):
     ops = []
     nret = 0
+    need = {}
     for _ in range(n_ops):
         k = rng.choice(ADV_OPS)
         op = {"op": k}
@@ -1044,15 +1048,21 @@ def gen_adversarial(rng, d, n_ops):
         if k in ("R", "RF"):
             if nret >= 6:
                 continue
+            if nret - 1 in need:
+                need[nret - 1] = 0
+            need[nret] = 0
             if k == "RF":
                 op = gen_ret_params(rng)
+                need[nret] = ret_need(op, d["budget_total_ns"])
             nret += 1
         if k in ("D", "SD"):
             if nret == 0:
                 continue
             op["d"] = rng.randrange(nret)
-            if k == "D":
-                op["wait_ms"] = rng.choice([0, 30, 400])
+            if k == "D" and need.get(op["d"], 0) > 0:
+                op["op"] = "SD"
+            if op["op"] == "SD":
+                need[op["d"]] = 0
         ops.append(op)
     return {"cap": d["cap"], "ops": ops, "legal": False, "drained": False, "wpaths": [], "mpaths": [], "kind": "adversarial"}
 
@@ -1071,7 +1081,7 @@ def op_coq(op):
         return "OStartRetirementWith (Build_ret_params %s %s %d%%N %s %d)" % (
             vlib.cbool(op.get("abort")), vlib.cbool(op.get("overlap")), op.get("elapsed_ns", 0), vlib.cbool(op.get("zero")), op.get("sessions", 0))
     if k == "D":
-        return "ORetire %d %d%%N" % (op.get("d", 0), op.get("wait_ms", 0) * MS)
+        return "ORetire %d 0%%N" % op.get("d", 0)
     if k == "SD":
         return "OSessionsEnd %d" % op.get("d", 0)
     if k == "WD":
@@ -1092,12 +1102,12 @@ def obs_coq(o):
         o["code"], o["msg"], vlib.cbool(o["suppressed"]), o["ret"])
 
 
-def run_batch(sc, binary, cases, tag, d):
+def run_batch(sc, binary, cases, tag, d, scale=1):
     inp, outp = sc.path("c20_%s.in" % tag), sc.path("c20_%s.out" % tag)
     with open(inp, "w") as f:
         for c in cases:
             f.write(json.dumps({"cap": c["cap"], "ops": c["ops"]}) + "\n")
-    rc, so, se, dt = vlib.run_go_harness(binary, "TestVerifC20", inp, outp, timeout=600)
+    rc, so, se, dt = vlib.run_go_harness(binary, "TestVerifC20", inp, outp, timeout=1800, extra_env={"VERIF_C20_SCALE": str(scale)})
     if rc != 0:
         return None, None, None, "harness failed rc=%d: %s %s" % (rc, so[-1500:], se[-1500:])
     results = [json.loads(l) for l in open(outp)]
@@ -1355,6 +1365,53 @@ def main(argv):
             cases += extra
             n_eval = len(cases)
 
+        # ---- 3b. a verdict that depends on real time is believed only if it persists ----
+        # (all waits in the harness are for events with a long deadline; the deadline is multiplied by 4
+        # and by 16 before "this never happened" is reported)
+        TIME_OPS = ("D", "WD", "RB", "O", "SD", "RF", "R")
+
+        def time_dependent(i):
+            step, code, _ = all_err[i][0]
+            ops = cases[i]["ops"]
+            return code == 8 or (step < len(ops) and ops[step]["op"] in TIME_OPS)
+
+        retried, retried_passed, retried_confirmed = 0, 0, 0
+        dumps = {}
+        cands = sorted((i for i in all_err if all_err[i] and time_dependent(i)), key=lambda j: (j >= n_corpus, len(cases[j]["ops"])))
+
+        def retry(idx):
+            nonlocal retried, retried_passed, retried_confirmed
+            still = list(idx)
+            for scale in (4, 16):
+                if not still:
+                    break
+                errs, sg, rs, err = run_batch(sc, binary, [cases[i] for i in still], "retry%d" % scale, d, scale=scale)
+                if err:
+                    break
+                nxt = []
+                for j, i in enumerate(still):
+                    if errs.get(j):
+                        all_err[i] = errs[j]
+                        all_res[i] = rs[j]
+                        if rs[j].get("dump"):
+                            dumps[i] = rs[j]["dump"]
+                        nxt.append(i)
+                    else:
+                        all_err.pop(i, None)
+                        all_res[i] = rs[j]
+                        if j in sg:
+                            sigs[i] = sg[j]
+                        retried_passed += 1
+                still = nxt
+            retried += len(idx)
+            retried_confirmed += len(still)
+            return still
+        if cands and not tie_broken:
+            confirmed = retry(cands[:3])
+            if len(cands) > 3 and not confirmed:
+                retry(cands[3:])
+        has_spec = any(spec_errs(e) for e in all_err.values())
+
         # ---- 4. classify ----
         spec_fail = sorted(i for i, e in all_err.items() if spec_errs(e))
         model_fail = sorted(i for i, e in all_err.items() if any(x[1] in MODEL_CODES for x in e))
@@ -1386,6 +1443,7 @@ def main(argv):
                 errs, _, res, err = run_batch(sc, binary, [small], "final", d)
             r = out.violation("impl_vs_spec_%s_%s" % (code, kind),
                               {"case": small, "observations": res[0]["obs"] if res else None, "errors": errs.get(0) if errs else None,
+                               "goroutine_dump": (res[0].get("dump") if res else None) or dumps.get(i),
                                "failing_cases": len(idxs), "matchers": matchers,
                                "how": "./check C20 --replay <this file>; ops: Q=queueReloadRequest T=worker receives A=reloadActive.Store L=reloading.Store C=coalesce P=setRunSignalProgress "
                                       "K=clearReloadPending H=beginHandoff N=notify O=finishReloadSuccess F=finishReloadFailure R=startControlPlaneRetirement X=clearPendingRetirement "
@@ -1434,6 +1492,7 @@ def main(argv):
                                "impl and model against the lock of the spec (held, muted, answer, refusal changes nothing); final state free after draining",
                    samples=[{"ops": sample["ops"], "drained": sample["drained"], "worker_paths": sample["wpaths"], "completion_paths": sample["mpaths"]}],
                    widened_search=widened, known_findings_matched=known,
+                   time_dependent_verdicts_retried=retried, retried_and_passed=retried_passed, retried_and_confirmed=retried_confirmed,
                    extracted_paths={"worker": [" | ".join(p["effs"]) for p in d["worker"]], "main": [" | ".join(p["effs"]) for p in d["main"]]})
     return out.finish()
 
